@@ -2,7 +2,7 @@
    Property theorems only. Editor.isearch_branch is what one key does during a search; [rec] is the
    rest of the loop (any continuation); `shows s s' entry p`: the line is now entry with the cursor at p,
    history, kill ring, input and output untouched. *)
-From RL Require Import UData LineBuffer History Editor EditorRun SearchProofs.
+From RL Require Import UData LineBuffer History Editor EditorRun SearchProofs SearchReport.
 
 (* what a successful History.search means (from C09): a stored entry, containing the text at the reported
    offset, and the NEAREST such entry from the start index (inclusive) in the direction *)
@@ -86,6 +86,53 @@ Theorem C08_other_command_exits :
              /\ e_line s' = e_line s /\ e_hist s' = e_hist s.
 Proof. exact other_command_exits. Qed.
 Print Assumptions C08_other_command_exits.
+
+(* What the search REPORTS (its prompt says `(reverse-i-search)` or `(failed reverse-i-search)` and the text typed).
+   [report_ok s term idx success]: if success is reported for a non-empty text, the line shown is the stored entry at idx
+   and contains the text at the cursor. Every key handled inside the search (a character, Backspace, the two search keys)
+   hands on to the rest of the loop -- whatever it is -- a state, text, index and flag for which the report is true. *)
+Theorem C08_reported_success_is_true :
+  forall (U : UData) (cfg : config) (s : est) backup mark term idx d success c,
+  grow (e_line s) = true -> report_ok s term idx success -> search_key c = true ->
+  exists t' i' d' su' s',
+    (forall rec, isearch_branch U cfg rec backup mark term idx d success c s = rec t' i' d' su' s')
+    /\ grow (e_line s') = true /\ e_hist s' = e_hist s /\ report_ok s' t' i' su'.
+Proof. exact step_keeps_report. Qed.
+Print Assumptions C08_reported_success_is_true.
+
+(* the report as a computable check *)
+Theorem C08_report_check_means :
+  forall (s : est) term idx success,
+  report_b s term idx success = true <->
+  (success = true -> term <> [] ->
+   exists e, nth_error (e_hist s) idx = Some e /\ buf (e_line s) = e /\ contains_at term e (pos (e_line s))).
+Proof. exact report_b_spec. Qed.
+Print Assumptions C08_report_check_means.
+
+(* the whole loop: a search loop that makes this check before EVERY prompt it draws, and aborts the program when it
+   fails, is the search loop -- for all keys (drawing the prompt and reading the next command touch neither the line nor
+   the history), histories, texts and any number of iterations; and a search starts inside that loop *)
+Theorem C08_every_prompt_reports_the_truth :
+  forall (U : UData) (cfg : config) fuel backup mark term idx d success (s : est),
+  grow (e_line s) = true -> report_ok s term idx success ->
+  isearch_loop_checked U cfg fuel backup mark term idx d success s
+  = isearch_loop U cfg fuel backup mark term idx d success s.
+Proof. exact checked_loop_is_loop. Qed.
+Print Assumptions C08_every_prompt_reports_the_truth.
+
+Theorem C08_search_starts_checked :
+  forall (U : UData) (cfg : config) fuel (s : est),
+  grow (e_line s) = true ->
+  incremental_search U cfg fuel s
+  = (if Nat.eqb (hlen_e s) 0 then eret None
+     else edo mark <- changes_begin;
+          isearch_loop_checked U cfg fuel (buf (e_line s), pos (e_line s)) mark [] (hlen_e s - 1) Reverse true) s.
+Proof. exact search_starts_checked. Qed.
+Print Assumptions C08_search_starts_checked.
+
+Example C08_report_check_example :
+  contains_at_b [97; 98]%N [120; 97; 98; 99; 120]%N 1 = true /\ contains_at_b [97; 98]%N [120; 97; 98; 99; 120]%N 2 = false.
+Proof. vm_compute. split; reflexivity. Qed.
 
 (* non-vacuity: history [xabcx; ab; zzz]; C-r a b finds "ab" (nearest), C-r again "xabcx", Enter *)
 Example C08_example :
